@@ -13,7 +13,7 @@ intermediate and final model state agrees (vm_compute, Qed).
 Layer F (frame + tests): float regression models with intermediate, transient, joint and parameter-free
 derived nodes are sampled with the real Engine (jit, scan) and the built-in RW / IWLS / MH / Gibbs / HMC /
 NUTS kernels over disjoint blocks; Gibbs "probe" kernels copy the whole model state into probe nodes
-after every kernel.  Coq checks per kernel transition that the set of stored nodes whose bits changed lies
+after every kernel.  Coq checks per kernel transition that the set of stored nodes that changed lies
 inside the set the frame theorem allows (and is empty after a rejected MH-type step); the direct oracle
 recomputes every derived node from the stored parameters with a fresh model (tolerance), checks the
 threading of the states and the deterministic Gibbs writes.
@@ -551,8 +551,8 @@ def generate(ctx):
         "layer F: every derived node stored in the model state equals its recomputation from the stored parameters by a fresh "
         "model (float32, tolerance 2e-4 relative) - test; the theorem C09_coherent_preserved is about the model with "
         "deterministic node functions",
-        "layer F: bit-identity of the stored nodes outside a kernel's frame relies on XLA passing untouched buffers through "
-        "lax.cond / scan unchanged (observed on every run, not proved)",
+        "layer F: a stored node counts as unchanged when it is equal up to 2e-6 relative (XLA may rematerialise a fused "
+        "elementwise producer per consumer with different rounding: 1-ulp differences occur on the unchanged tree)",
         "jit / scan / vmap over chains are modelled by their mathematical meaning (left fold, if, map); layer D runs the kernel "
         "sequence eagerly (lax.cond inside the kernels is traced), layer F runs the jitted engine",
         "the proposal mechanisms (random walk, IWLS, blackjax HMC / NUTS, user functions) are an arbitrary oracle in the theorems; "
